@@ -849,9 +849,20 @@ func init() {
 						}
 					}
 				}
+				for cause := 0; cause <= 1; cause++ {
+					for _, buf := range []int{0, 1} {
+						for _, b := range bounds {
+							for _, rot := range []int{0, 1, 2} {
+								j := J(rootPkg, "H_C13_listen", cause, buf, b, rot)
+								j.MaxSteps = 2_000_000
+								jobs = append(jobs, j)
+							}
+						}
+					}
+				}
 				return jobs
 			},
-			Explanation: "Partial, bounded. The complete connection plumbing - Initiator.Serve (conn.serve + reader goroutine, DefaultHandler.Run, writer loop, context watcher, forwarder, errgroup) and Acceptor.serve - runs as interpreted goroutines on a scripted net.Conn whose Close unblocks a pending Read like a real socket. Termination causes: peer closes (EOF), read error, write error, local Initiator.Close / Acceptor.Close, handler.Stop, the peer stops reading (every Write times out); injected when nothing has been exchanged, after inbound messages were delivered, inside a partially read inbound message, with an outbound message just handed over (an application goroutine is inside SendRaw), and after an inbound frame without MsgType has ended the handler loop; channel buffer sizes 0 and 1. Schedules: the deterministic cooperative one, plus every schedule with at most 1 (thorough: 2) preemptions at channel/select/cancel/go switch points from the moment of the cause (three rotations of the run-queue order). Asserted on every schedule: every goroutine started by the library finishes (a goroutine blocked forever is detected by the engine as a deadlock), the serving call returns, the socket is closed, later SendRaw/Send calls return, the non-initiating side got a disconnect or stopped notification, no goroutine remains.",
+			Explanation: "Partial, bounded. The complete connection plumbing - Initiator.Serve (conn.serve + reader goroutine, DefaultHandler.Run, writer loop, context watcher, forwarder, errgroup) Acceptor.serve, and Acceptor.ListenAndServe on an in-memory listener with one accepted connection (local Close, listener failure) - runs as interpreted goroutines on a scripted net.Conn whose Close unblocks a pending Read like a real socket. Termination causes: peer closes (EOF), read error, write error, local Initiator.Close / Acceptor.Close, handler.Stop, the peer stops reading (every Write times out); injected when nothing has been exchanged, after inbound messages were delivered, inside a partially read inbound message, with an outbound message just handed over (an application goroutine is inside SendRaw), and after an inbound frame without MsgType has ended the handler loop; channel buffer sizes 0 and 1. Schedules: the deterministic cooperative one, plus every schedule with at most 1 (thorough: 2) preemptions at channel/select/cancel/go switch points from the moment of the cause (three rotations of the run-queue order). Asserted on every schedule: every goroutine started by the library finishes (a goroutine blocked forever is detected by the engine as a deadlock), the serving call returns, the socket is closed, later SendRaw/Send calls return, the non-initiating side got a disconnect or stopped notification, no goroutine remains.",
 			Rule:        "case = (side, cause, point, buffer size, preemption bound, run-queue rotation) x schedule",
 			Bounds:      map[string]string{"quick": "6 causes x 5 points x buffers {0,1} x 2 sides; preemption bound <= 1 at coarse switch points (tens to hundreds of schedules per case)", "thorough": "preemption bound <= 2 (hundreds to thousands of schedules per case)"},
 			Assumptions: append(append([]string{}, commonAssumptions...),
